@@ -66,6 +66,8 @@ MCInit == \/ \E s \in Strs : InitWith([op |-> "pct", in |-> s])
                 /\ InitWith([op |-> "late_response", proto |-> p, used |-> k, d |-> w, n |-> st, text |-> t])
           \* C14: a Receive that fails for a reason of its own while the handler is waiting for the client
           \/ \E p \in {"connect", "grpc", "grpcweb"} : InitWith([op |-> "recvfail_live", proto |-> p])
+          \* C01: messages with sub-messages, repeated and map fields
+          \/ \E p \in {"connect", "grpc", "grpcweb"}, u \in {"plain", "gzip"} : InitWith([op |-> "nested_e2e", proto |-> p, used |-> u])
           \* C13: receiving while a Send on the same stream is blocked
           \/ \E p \in {"connect", "grpc", "grpcweb"} : InitWith([op |-> "recv_while_send", proto |-> p])
           \* C11: error metadata when the error payload exceeds the client's read limit
